@@ -602,7 +602,7 @@ package fsm
 //@   requires [restart] p.fs.vCur[p.dirname] == p.fs.dCur[p.dirname] && (p.fs.dCur[p.dirname] != "" ==> p.fs.vHas[pjoin(p.dirname, p.fs.dCur[p.dirname])])
 //@   requires [inv] recoverable(p.fs, p.dirname)
 //@   ensures [C04.open.recoverable] recoverable(p.fs, p.dirname)
-//@   modifies p.fs.vHas, p.fs.dHas, p.fs.dCur, p.fs.vCur, p.fs.updName, p.fs.opened, p.pebble.v
+//@   modifies p.fs.vHas, p.fs.dHas, p.fs.dCur, p.fs.vCur, p.fs.updName, p.fs.opened, p.pebble.v, world.syncedPath
 
 // ---------------------------------------------------------------- in-cluster snapshots (C08)
 
@@ -650,7 +650,7 @@ package fsm
 //@ iface fsm.snapshotRecoverer.recover
 //@   assumed
 //@   params rc, r, stopc
-//@   modifies family(G_any_vHas), family(G_any_dHas), family(G_any_dCur), family(G_any_vCur), family(G_any_updName), family(G_any_opened), family(G_any_rest)
+//@   modifies family(G_any_vHas), family(G_any_dHas), family(G_any_dCur), family(G_any_vCur), family(G_any_updName), family(G_any_opened), family(G_any_rest), family(G_any_syncedPath)
 
 // the header as it travels: the writer/reader remember the format byte of the header they carried
 //@ ghostfield any.fmtByte Int
@@ -680,7 +680,7 @@ package fsm
 //@   maypanic
 //@   requires p != nil && r != nil
 //@   before fsm.snapshotRecoverer.recover assert [C08.dispatch] (r.fmtByte == 0 ==> typeIs(rc, *snapshot)) && (r.fmtByte == 1 ==> typeIs(rc, *checkpoint))
-//@   modifies family(G_any_vHas), family(G_any_dHas), family(G_any_dCur), family(G_any_vCur), family(G_any_updName), family(G_any_opened), family(G_any_rest)
+//@   modifies family(G_any_vHas), family(G_any_dHas), family(G_any_dCur), family(G_any_vCur), family(G_any_updName), family(G_any_opened), family(G_any_rest), family(G_any_syncedPath)
 
 // ---- snapshot format: prepare pins a pebble snapshot, save streams exactly that view
 
@@ -743,22 +743,6 @@ package fsm
 //@   params r, order, data
 //@   results err
 //@   modifies *asType(data, *uint64), r.rest
-//@ iface vfs.FS.Create
-//@   assumed
-//@   params fs, name
-//@   results f, err
-//@   ensures err == nil ==> f != nil
-//@   ensures forall q string :: old(fs.vHas[q]) ==> fs.vHas[q]
-//@   modifies fs.vHas
-//@ iface vfs.File.Sync
-//@   assumed
-//@   modifies nothing
-//@ iface vfs.File.Close
-//@   assumed
-//@   modifies nothing
-//@ iface vfs.File.Write
-//@   assumed
-//@   modifies nothing
 // Ingest links the SST files into the (new, private) DB: its view changes, bookkeeping values keep their 8-byte form
 //@ func pebble.(*DB).Ingest
 //@   assumed
@@ -779,10 +763,10 @@ package fsm
 //@   results er
 //@   requires s != nil && s.fsm != nil && s.fsm.fs != nil && s.fsm.log != nil && s.fsm.metrics != nil && r != nil && parentOf(s.fsm.dirname) != s.fsm.dirname
 //@   requires [inv] recoverable(s.fsm.fs, s.fsm.dirname) && (s.fsm.fs.dCur[s.fsm.dirname] != "" ==> s.fsm.fs.vHas[pjoin(s.fsm.dirname, s.fsm.fs.dCur[s.fsm.dirname])]) && s.fsm.fs.vCur[s.fsm.dirname] == s.fsm.fs.dCur[s.fsm.dirname] && s.fsm.fs.dCur[s.fsm.dirname] != "current.updating"
-//@   before pebble.ReplaceCurrentDBFile assert [C08.install.opened] fs.opened[pjoin(dir, fs.updName[dir])]
+//@   before pebble.ReplaceCurrentDBFile assert [C08.install.opened+C04] fs.opened[pjoin(dir, fs.updName[dir])]
 //@   ensures [C08.install.recoverable] recoverable(s.fsm.fs, s.fsm.dirname)
 //@   ensures [C08.install.swap] s.fsm.pebble.v != old(s.fsm.pebble.v) ==> s.fsm.fs.dCur[s.fsm.dirname] == s.fsm.fs.vCur[s.fsm.dirname] && s.fsm.fs.opened[pjoin(s.fsm.dirname, s.fsm.fs.dCur[s.fsm.dirname])]
-//@   modifies s.fsm.fs.vHas, s.fsm.fs.dHas, s.fsm.fs.dCur, s.fsm.fs.vCur, s.fsm.fs.updName, s.fsm.fs.opened, s.fsm.pebble.v, r.rest, family(G_any_vP), family(G_any_vV)
+//@   modifies s.fsm.fs.vHas, s.fsm.fs.dHas, s.fsm.fs.dCur, s.fsm.fs.vCur, s.fsm.fs.updName, s.fsm.fs.opened, s.fsm.pebble.v, r.rest, world.syncedPath, family(G_any_vP), family(G_any_vV)
 //@   loop 0 invariant db != nil && fresh(db) && s.fsm == old(s.fsm) && (isNilSlice(files) || fresh(files)) && (isNilSlice(buff) || fresh(buff))
 //@   loop 0 invariant s.fsm.fs.opened[dbdir] && s.fsm.fs.vHas[dbdir] && s.fsm.pebble.v == old(s.fsm.pebble.v)
 //@   loop 0 invariant forall d string :: s.fsm.fs.dCur[d] == old(s.fsm.fs.dCur[d]) && s.fsm.fs.vCur[d] == old(s.fsm.fs.vCur[d])
@@ -808,10 +792,10 @@ package fsm
 //@   results er
 //@   requires c != nil && c.fsm != nil && c.fsm.fs != nil && c.fsm.log != nil && c.fsm.metrics != nil && r != nil && parentOf(c.fsm.dirname) != c.fsm.dirname
 //@   requires [inv] recoverable(c.fsm.fs, c.fsm.dirname) && (c.fsm.fs.dCur[c.fsm.dirname] != "" ==> c.fsm.fs.vHas[pjoin(c.fsm.dirname, c.fsm.fs.dCur[c.fsm.dirname])]) && c.fsm.fs.vCur[c.fsm.dirname] == c.fsm.fs.dCur[c.fsm.dirname] && c.fsm.fs.dCur[c.fsm.dirname] != "current.updating"
-//@   before pebble.ReplaceCurrentDBFile assert [C08.install.opened] fs.opened[pjoin(dir, fs.updName[dir])]
+//@   before pebble.ReplaceCurrentDBFile assert [C08.install.opened+C04] fs.opened[pjoin(dir, fs.updName[dir])]
 //@   ensures [C08.install.recoverable] recoverable(c.fsm.fs, c.fsm.dirname)
 //@   ensures [C08.install.swap] c.fsm.pebble.v != old(c.fsm.pebble.v) ==> c.fsm.fs.dCur[c.fsm.dirname] == c.fsm.fs.vCur[c.fsm.dirname] && c.fsm.fs.opened[pjoin(c.fsm.dirname, c.fsm.fs.dCur[c.fsm.dirname])]
-//@   modifies c.fsm.fs.vHas, c.fsm.fs.dHas, c.fsm.fs.dCur, c.fsm.fs.vCur, c.fsm.fs.updName, c.fsm.fs.opened, c.fsm.pebble.v, family(G_any_rest), family(G_any_sdata), family(G_any_slen), family(G_any_vP), family(G_any_vV)
+//@   modifies c.fsm.fs.vHas, c.fsm.fs.dHas, c.fsm.fs.dCur, c.fsm.fs.vCur, c.fsm.fs.updName, c.fsm.fs.opened, c.fsm.pebble.v, world.syncedPath, family(G_any_rest), family(G_any_sdata), family(G_any_slen), family(G_any_vP), family(G_any_vV)
 //@   loop 0 invariant tr != nil && c.fsm == old(c.fsm) && c.fsm.fs.vHas[dbdir] && c.fsm.pebble.v == old(c.fsm.pebble.v)
 //@   loop 0 invariant forall d string :: c.fsm.fs.dCur[d] == old(c.fsm.fs.dCur[d]) && c.fsm.fs.vCur[d] == old(c.fsm.fs.vCur[d])
 //@   loop 0 invariant forall q string :: old(c.fsm.fs.dHas[q]) ==> c.fsm.fs.dHas[q]
